@@ -141,6 +141,9 @@ RootSumRed(exps, red) ==
 RootSumIs(exps, red, c) ==
   LET r == RootSumRed(exps, red) IN \A t \in 1..Len(r) : r[t] = (IF t = 1 THEN c ELSE 0)
 
+\* canonical form of  sum_t w_M^{exps[t]}  (name of DESIGN Appendix B)
+RootSum(exps, M) == RootSumRed(exps, RedTab(M, Cyclo(M)))
+
 (* ---- laws the reference must satisfy (checked by TLC on every config) -- *)
 \* inverse o forward = identity for complex-to-complex transforms:
 \*   sum_k (1/N) w^{-sign..} w^{sign..} = [j' = j]       (root-of-unity sum rule)
@@ -186,6 +189,9 @@ HermitianOK(shape, axes) ==
 RecipPt(n, shift, k) == Q(2 * k - n + (IF shift THEN 0 ELSE 1), 2 * n)
 \* number of reciprocal points kept on an axis
 RecipLen(n, halved) == IF halved THEN (n \div 2) + 1 ELSE n
+\* the reference reciprocal grid of one axis in physical units 2 pi / stride (name of DESIGN Appendix B):
+\* tuple of rationals q_k with  xi_k = q_k * 2 pi / stride
+RecipGrid(n, shift, halved) == Tup([k \in 1..RecipLen(n, halved) |-> RecipPt(n, shift, k - 1)])
 
 \* a common period of all phases of one axis: x_j xi_k / 2pi = (a + j b)(2k - n + d) / (2 b n)
 FTAxisPeriod(n, x0) == 2 * x0[2] * n
